@@ -391,6 +391,11 @@ def gen_world(tape, root, nfiles=1, qualified=False, max_refs=16, boxes=True, wr
                 e.idx = k
             nl = 1 + tape.draw(min(4, len(vis), budget), "nlist")
             order = tape.perm(len(vis), "targets")[:nl]
+            if nl >= 2 and tape.chance(1, 4, "repeated-target"):
+                # the same object referenced twice in one list: positions are still told apart by the references' offsets
+                j = 1 + tape.draw(nl - 1, "repeat-at")
+                order[j] = order[tape.draw(j, "repeat-of")]
+                w.repeated_targets = True
             for k, ti in enumerate(order):
                 r = Ref(u, "refs", k, vis[ti])
                 u.refs.append(r)
